@@ -232,6 +232,10 @@ class Topology(ABC):
         """
         for i in interfaces:
             for ii in (i,) + tuple(i.interface_list):
+                if not self.graph_model.node_exists(node_id=ii.node_id,
+                                                    label=ABCPropertyGraph.CLASS_ConnectionPoint):
+                    # a service port of the element's own services, removed when its peer was disconnected
+                    continue
                 # disconnect if connected to a network service
                 peers = ii.get_peers(itype=InterfaceType.ServicePort)
                 if peers:
